@@ -111,6 +111,18 @@ func TestVerifInboundHostile(t *testing.T) {
 			for flavour := 0; flavour < 4; flavour++ {
 				for _, hc := range cases {
 					a := ibBareAssoc()
+					// stands in for the connect call that waits for the handshake result
+					go func(a *Association) {
+						for {
+							select {
+							case <-a.handshakeCompletedCh:
+							case <-a.readLoopCloseCh:
+								return
+							case <-a.closeWriteLoopCh:
+								return
+							}
+						}
+					}(a)
 					il := flavour&1 != 0
 					a.lock.Lock()
 					a.setState(state)
